@@ -3,4 +3,6 @@
 pub mod engine;
 pub mod io;
 pub mod props;
+pub mod recsign;
 pub mod refimpl;
+pub mod zoo;
